@@ -15,6 +15,47 @@ static int *neigh, *imi, *ind, *imo;
 
 static float *zp;
 
+/* --- verification hooks: inert unless WAVESPECTRA_VERIF=1 and WAVESPECTRA_VERIF_TRACE=<file> --- */
+#include <string.h>
+static int verif_on = 0;
+static FILE *verif_fp = NULL;
+static char verif_path[1024] = "";
+static void verif_init(void) {
+  const char *g = getenv("WAVESPECTRA_VERIF");
+  const char *f = getenv("WAVESPECTRA_VERIF_TRACE");
+  if (g == NULL || g[0] != '1' || f == NULL || strlen(f) >= sizeof(verif_path)) {
+    verif_on = 0;
+    return;
+  }
+  if (verif_fp == NULL || strcmp(f, verif_path) != 0) {
+    if (verif_fp != NULL) fclose(verif_fp);
+    verif_fp = fopen(f, "a");
+    strcpy(verif_path, f);
+  }
+  verif_on = (verif_fp != NULL);
+}
+static void verif_event(const char *ev, int a, int b, int c, int d, const int *arr, int n) {
+  int i;
+  if (!verif_on) return;
+  fprintf(verif_fp, "{\"ev\":\"%s\",\"a\":%d,\"b\":%d,\"c\":%d,\"d\":%d,\"arr\":[", ev, a, b, c, d);
+  for (i = 0; i < n; i++) fprintf(verif_fp, i ? ",%d" : "%d", arr[i]);
+  fprintf(verif_fp, "]}\n");
+  fflush(verif_fp);
+}
+
+/* wrapper-level event (called with the GIL held): thread id, process-global sequence number, array flags */
+static long verif_seq = 0;
+void verif_wrap_event(const char *ev, long thr, int ccontig, int fcontig, int typenum, int itemsize,
+                      long d0, long d1, long s0, long s1) {
+  verif_init();
+  if (!verif_on) return;
+  verif_seq++;
+  fprintf(verif_fp, "{\"ev\":\"%s\",\"thr\":%ld,\"seq\":%ld,\"cc\":%d,\"fc\":%d,\"ty\":%d,\"isz\":%d,"
+          "\"d0\":%ld,\"d1\":%ld,\"s0\":%ld,\"s1\":%ld}\n",
+          ev, thr, verif_seq, ccontig, fcontig, typenum, itemsize, d0, d1, s0, s1);
+  fflush(verif_fp);
+}
+
 
 void ptnghb();
 void ptsort(int iihmax, int nnspec);
@@ -65,6 +106,8 @@ void partition(float * spec,
   double zmin, zmax, fact;
   int iang, ifreq, i;
 
+  verif_init();
+  verif_event("enter", nk, nth, ihmax, !(mk == nk && mth == nth), NULL, 0);
   partinit(nk, nth);
 
   if ( nk != mk || nth != mth ) {
@@ -93,6 +136,7 @@ void partition(float * spec,
       ipart[i] = 0;
     }
     npart = 0;
+    verif_event("const", 0, 0, 0, 0, NULL, 0);
     return;
   }
 
@@ -108,7 +152,9 @@ void partition(float * spec,
   }
 
   // Fills the ind table with indexes that correspond to increasing levels of energy
+  verif_event("imi", 0, 0, 0, 0, imi, nspec);
   ptsort(ihmax, nspec);
+  verif_event("ind", 0, 0, 0, 0, ind, nspec);
   
   pt_fld(imi, ind, imo, zp, ihmax);
     
@@ -117,6 +163,7 @@ void partition(float * spec,
             ipart[ifreq + mk * iang] = imo[ifreq + mk * iang];
         }
     }  
+  verif_event("exit", npart, 0, 0, 0, NULL, 0);
 }
 
 
@@ -450,6 +497,7 @@ void pt_fld(int *imi,
       else
 	m++;
     }
+    verif_event("level", ih, ic_label, iq_start, iq_end, imo, nspec);
 
   }
   
@@ -478,6 +526,7 @@ void pt_fld(int *imi,
     }
     for ( i = 0; i < nspec; i++ )
       imo[i] = imd[i];
+    verif_event("sweep", j, 0, 0, 0, imo, nspec);
     if ( int_minval(imo, nspec) > 0 ){
       break;
     }
